@@ -183,6 +183,14 @@ def run(rep, tier, seed):
                 fmt = rand_format(rnd, malformed_rate=0.0)
                 fmt = [c for c in fmt if c != 167]
                 calls.append({"name": name, "fmt": fmt, "args": [rand_arg(rnd) for _ in range(rnd.randint(0, 3))]})
+            if i < 8:
+                # long texts: a line break followed by a long run without one (the standard output is line buffered:
+                # what follows the last line break goes out in a write of its own, which may be partial)
+                tail = [1023, 1024, 2500, 5000, 1024, 2500, 700, 4096][i]
+                name = ["print", "println", "print", "println", "eprint", "eprintln", "print", "print"][i]
+                calls = [{"name": name, "fmt": [ord(c) for c in "head"] + [10] + [ord("a") + (k % 26) for k in range(tail)], "args": []}]
+                if i % 2:
+                    calls.append({"name": "print", "fmt": [ord(c) for c in "-more-"] + [10], "args": []})
             lines = ["let LENS = [];", "let SH = [];"]
             for c in calls:
                 for a in c["args"]:
